@@ -2,6 +2,8 @@
  * taken from the real headers (mb_mgr_code.h, mb_mgr_burst_async.h via the sse_t1 variant file). */
 #include "sse_t1/mb_mgr_sse_t1.c"
 #include <assert.h>
+#undef assert /* the repo is built with -DNDEBUG: use CBMC assertions, which NDEBUG does not remove */
+#define assert(c) __CPROVER_assert((c), #c)
 volatile int imb_errno;
 int nondet_int(void);
 unsigned nondet_uint(void);
